@@ -476,7 +476,15 @@ func search(a map[string]string) {
 	}
 	// the repository's own vectors against their recorded expectation
 	for _, v := range vectorLines(a["repo"]) {
-		kind, _, ret := runImpl(0, 1000000, mustCode(v.line), nil)
+		var kind string
+		var ret []byte
+		if res := hx.Guard(func() string {
+			k, _, rt := runImpl(0, 1000000, mustCode(v.line), nil)
+			kind, ret = k, rt
+			return k
+		}); strings.HasPrefix(res, "PANIC") {
+			kind = res
+		}
 		evals++
 		// memory returned: [msize=0 word][top word]
 		ok := kind == "ok" && len(ret) == 64 && bytes.Equal(ret[32:], leftPad32(v.expect))
